@@ -34,7 +34,7 @@ MIN_EVALS = 1500
 MIN_NONTRIVIAL = 800
 
 BY_CONSTRUCTION = {"renamed-signal-clash", "renamed-port", "renamed-instance-clash", "foreign-signal", "orphan-signal", "foreign-signal-nested", "orphan-signal-nested", "orphan-member", "foreign-bundle", "foreign-instance-ref", "self-cycle", "two-cycle",
-                   "unnamed-module", "name-clash", "displaced-signal", "ext-name-clash", "mod-ext-name-clash"}
+                   "unnamed-module", "name-clash", "displaced-signal", "ext-name-clash", "mod-ext-name-clash", "renamed-bundle-member"}
 
 
 def expr_kind(e):
@@ -276,6 +276,18 @@ def mutations(design, rng, limit_per_class):
         d = copy.deepcopy(design)
         d["cycle"] = ["self", m["name"]]
         add("self-cycle", f"module/depth{0 if m['name'] == design['top'] else 1}", d)
+    # a member of a Bundle definition RE-NAMED after it was added (to a fresh name, or to that of another member)
+    used = {b[1] for m in design["modules"] for b in list(m.get("buns", [])) + list(m.get("bports", []))}
+    for bname in sorted(used):
+        bd = design["bundles"].get(bname) or {}
+        if bd.get("builtin"):
+            continue
+        members = [s_[0] for s_ in bd.get("sigs", [])] + [s_[0] for s_ in bd.get("subs", [])]
+        for k, mem in enumerate(members[:2]):
+            for new in ["zzmember"] + [x for x in members if x != mem][:1]:
+                d = copy.deepcopy(design)
+                d["rename_member"] = [bname, mem, new]
+                add("renamed-bundle-member", f"bundle/{'sig' if k < len(bd.get('sigs', [])) else 'sub'}/{'fresh' if new == 'zzmember' else 'clash'}", d)
     d = copy.deepcopy(design)
     d["extclash"] = True
     add("ext-name-clash", "module", d)
@@ -365,6 +377,11 @@ def build_mutant(design):
         obj = built.objs.get((mname, attr))
         if obj is not None:
             obj.name = newname
+    if design.get("rename_member"):
+        bname, mem, new = design["rename_member"]
+        bdef = built.bundles.get(bname)
+        if bdef is not None and bdef is not h.Diff and mem in bdef.namespace:
+            bdef.namespace[mem].name = new
     for mname, iname, port in design.get("probe", []):
         iobj = built.objs.get((mname, iname))
         if iobj is not None:
